@@ -269,6 +269,21 @@ func (g *cg) arg(role string, d int) []Node {
 		return out
 	case "kmap":
 		m := map[string]val.V{}
+		if g.pick("kmcycle", 3) == 0 {
+			// targets that are sources too: a swap, a rotation or a chain over the usual keys
+			ks := []val.V{val.K("a"), val.K("b"), val.K("c"), val.K("k"), val.S("a")}
+			n := 2 + g.pick("kmcn", 2)
+			start := g.pick("kmcs", len(ks))
+			closed := g.pick("kmclosed", 2) == 0
+			for i := 0; i < n; i++ {
+				if i == n-1 && !closed {
+					break
+				}
+				k, _ := val.KeyOf(ks[(start+i)%len(ks)])
+				m[k] = ks[(start+(i+1)%n)%len(ks)]
+			}
+			return one(lit(val.M(m)))
+		}
 		for i, n := 0, g.pick("kmn", 3); i < n; i++ {
 			k, _ := val.KeyOf(g.keyV())
 			m[k] = g.keyV()
